@@ -33,12 +33,12 @@ def _sweep_inner(w, al):
     return idx, pos, lt[0].rhs, xstr(inner.kids[0], al)
 
 
-def sweep_conditions(ctx, P, rule="SWEEP-COND", floor=9):
+def sweep_conditions(ctx, P, rule="SWEEP-COND", floor=9, tus=None):
     ctx.rule(rule, "every tree-sweep loop over the edge insertion/removal orders continues while `tj < M || left < sequence_length` "
                    "(all sibling loops agree; a sweep that stops at the last insertion skips the trees to its right)")
     R = CountResolver(P)
     n = 0
-    for key in LIB_TUS:
+    for key in (tus or LIB_TUS):
         tu = P.tus[key]
         for fn in tu.funcs.values():
             al = None
@@ -71,5 +71,5 @@ def sweep_conditions(ctx, P, rule="SWEEP-COND", floor=9):
                 n += 1
                 ctx.ob(rule, "%s@%d" % (fn.name, k), ok, tu.loc(w), why)
                 k += 1
-    ctx.floor(rule, floor)
+    ctx.floor(rule, floor if tus is None else 2)
     return n
